@@ -419,7 +419,8 @@ def run(chk):
     how_e2e = ("establish (PSK suite `variant`) with ConnectionIDGenerator lengths len_eut/len_peer (-1 = none); the "
                "peer's writes are captured (in `-stale0` variants the first datagram of the peer that carries a "
                "record of the application epoch is withheld during the handshake and kept; in `-oldepoch` variants "
-               "the peer updates its keys and one record of the old epoch is kept); each `deliver` step hands pool "
+               "the peer updates its keys and one record of the old epoch is kept; in `-acklost` variants the EUT's ACK "
+               "of the peer's KeyUpdate is withheld, so the peer stays in the old epoch); each `deliver` step hands pool "
                "record `rec` (epoch `epoch`, sequence `seq`, kind "
                "`rkind`, connection ID `rcid`, `tamper` = sender-side ID altered) to the endpoint under test "
                "from source address `from` at virtual time `now`; `emits` = what it sent (decoded with the "
@@ -484,6 +485,7 @@ def run(chk):
                                                       if s["op"] == "deliver" and s["seq"] == 0 and not s.get("tamper")
                                                       and [s["epoch"], 0] not in c["pre"]),
                      directed_stale_cases=sum(1 for c in e2e if "stale0" in c["variant"] or "oldepoch" in c["variant"]),
+                     directed_acklost_cases=sum(1 for c in e2e if "acklost" in c["variant"]),
                      cid_length_pairs=sorted({(c["len_eut"], c["len_peer"]) for c in e2e}),
                      not_negotiated=sum(1 for c in e2e if not c["neg"]))
 
@@ -634,7 +636,11 @@ def run(chk):
              "pool, the DTLS 1.3 peer updates its keys inside random scripts, and directed stale scenarios (first "
              "datagram of the application epoch withheld during the handshake - 1.3 first epoch-3 record, 1.2 first "
              "transmission of the Finished -; record of the epoch superseded by a key update) deliver the stale record "
-             "from a new address after newer ones, with a really newest record from there as positive control; "
+             "from a new address after newer ones, with a really newest record from there as positive control; the "
+             "opposite directed scenario `acklost` (peer's KeyUpdate processed, the ACK lost, the peer - still in the "
+             "old epoch - sends data and its retransmitted KeyUpdate from a new address) REQUIRES a challenge: "
+             "liveness monitor 'the newest received CID record from a non-active address is challenged unless a "
+             "challenge to it is pending or the 3x budget cannot pay'; "
              "non-trivial = at least one RRC record emitted and one record from a non-active address that caused "
              "none; distinct by configuration and full script. router: generated record lists incl. bad versions and "
              "truncation; non-trivial = an ID found behind at least one skipped record. listener: real listenWithConfig "
